@@ -109,11 +109,8 @@ pub fn string_to_bigint(s: String) -> Result<i128, Error> {
 }
 
 pub fn hex_to_bytes(s: &str) -> Result<Vec<u8>, Error> {
-    let s = if has_hex_prefix(s) {
-        s.trim_start_matches("0x")
-    } else {
-        s
-    };
+    // a single optional prefix: "0x0x12" is not hex
+    let s = s.strip_prefix("0x").unwrap_or(s);
 
     let out = hex::decode(s)?;
 
